@@ -198,6 +198,10 @@ def run_unit(unit, rng, ctx):
         # sub-trajectories of UNEQUAL length (default split, or hand-made slices): still plain mean / std
         cuts = sorted({0, T} | {int(x) for x in rng.integers(2, T - 2, size=int(rng.integers(1, 4)))})
         cuts = [c for i, c in enumerate(cuts) if i == 0 or c - cuts[i - 1] >= 2]
+        if rng.integers(3) == 0 and len(cuts) >= 3 and cuts[-1] == T and cuts[1] >= 3:
+            # one of the runs is a single frame (a one-frame run contributes a diffusivity of 0, it is not left out)
+            cuts = cuts[:1] + [1] + cuts[1:]
+            ctx.count('run_lists_with_a_single_frame_run')
         if len(cuts) >= 3 and cuts[-1] == T:
             slices = [traj[a_:b_] for a_, b_ in zip(cuts[:-1], cuts[1:])]
             S2 = TrajectoryMetricsStd(slices)
